@@ -7,7 +7,7 @@ jump changes", that Reset/Cancel restore bytes and behaviour of everything the b
 map iteration may cancel), idempotence of Reset, re-mock after Reset, and non-interference between targets.  The jump
 emitter and the NOP-sentinel test inside the model are the definitions regenerated from the Go source on every run (tie T).
 
-Tie X: a virtual user package (harness/c02) with 10 targets runs generated histories through goom's public API; after EVERY
+Tie X: a virtual user package (harness/c02) with 17 targets (functions, methods, an unexported function, a generic instantiation, func literals and a closure held in variables, a method family ending in the letters of the -fm suffix) runs generated histories through goom's public API; after EVERY
 step the probe compares the whole executable image of its own process with a snapshot taken before the first step and calls
 every target and three untouched neighbours; `goomdrv` predicts the same line from the model.  The oracle below states the
 property on the implementation's observations without using the model.
@@ -45,9 +45,13 @@ META = {
 }
 
 GEN = ['JmpAmd64']
-NT, NP = 10, 4
-METHODS = {7, 8, 9}
-VIAS = {0: 'fe', 1: 'fe', 2: 'fe', 3: 'fe', 4: 'fe', 5: 'f', 6: 'fe', 7: 'fmeuv', 8: 'fmeuv', 9: 'feuv'}
+NT, NP = 17, 4
+T_METHODS = {7, 8, 9}               # methods of T: Struct(&T{}).Method / ExportMethod, method expression, by name, method value
+L_METHODS = {12, 13, 14, 15, 16}    # the family Add / Addf / Addm / Addfm / Addmf of L: method expression, by name, method value
+LITERALS = {10, 11}                 # func literal in a package variable, closure capturing a variable: Func(variable)
+METHODS = T_METHODS | L_METHODS
+VIAS = {0: 'fe', 1: 'fe', 2: 'fe', 3: 'fe', 4: 'fe', 5: 'f', 6: 'fe', 7: 'fmeuv', 8: 'fmeuv', 9: 'feuv', 10: 'f', 11: 'f',
+        12: 'fevv', 13: 'fevv', 14: 'fevv', 15: 'fevv', 16: 'fevv'}
 
 CORPUS = [  # hand-written scenarios that always run first (1 builder unless the first token says otherwise)
     '1 | a 0 f 0 1 ; x 0 ; x 0 ; a 0 f 0 2 ; x 0',
@@ -73,6 +77,11 @@ CORPUS = [  # hand-written scenarios that always run first (1 builder unless the
     '1 | k 0 f 3 ; R 0 f 3 1 ; C 0 f 3 ; R 0 f 3 2 ; a 0 f 3 0 ; x 0 ; x 0',
     '1 | k 0 m 7 ; A 0 m 7 1 ; x 0 ; R 0 m 7 2 ; r 0 m 7 3 ; x 0',
     '2 | k 0 e 1 ; k 1 f 1 ; A 0 e 1 0 ; A 1 f 1 1 ; C 0 e 1 ; A 0 e 1 2 ; a 0 e 1 3 ; x 1 ; x 0',
+    # func literals held in variables (bodies call other corpus functions), a closure, and the -fm method family through method values
+    '1 | a 0 f 10 1 ; a 0 f 11 2 ; r 0 f 10 3 ; x 0 ; a 0 f 11 0 1 ; x 0',
+    '1 | a 0 v 13 1 ; a 0 v 14 2 ; a 0 v 15 3 ; a 0 v 16 0 ; x 0',
+    '1 | a 0 v 12 0 ; a 0 v 13 1 ; c 0 v 12 ; r 0 v 15 4 ; x 0 ; x 0',
+    '2 | a 0 v 13 1 ; a 1 f 13 2 ; a 0 e 12 3 ; k 1 v 16 ; A 1 v 16 0 ; C 1 v 16 ; x 0 ; x 1',
     # two-level struct lookup: K keeps sm := b.Struct(x); sa/sr/sw/sc/sk go through sm, a/r/w/c/k through a fresh b.Struct(x)
     '1 | K 0 ; a 0 m 7 1 ; sa 0 m 8 2 ; x 0 ; x 0',
     '1 | K 0 ; sa 0 m 7 1 ; a 0 m 8 2 ; sc 0 m 8 ; x 0',
@@ -81,7 +90,7 @@ CORPUS = [  # hand-written scenarios that always run first (1 builder unless the
     '1 | K 0 ; sk 0 m 8 ; A 0 m 8 1 ; C 0 m 8 ; A 0 m 8 2 ; c 0 m 8 ; x 0',
     '1 | K 0 ; K 0 ; sw 0 m 8 1 3 ; a 0 u 9 1 ; sc 0 u 9 ; sa 0 u 9 2 ; x 0',
 ]
-MALFORMED = ['1 | a 0 q 0 1', '1 | a 0 m 0 1', '1 | a 0 f 12 1', '1 | a 3 f 0 1', '1 | z 0', '1 | a 0 f 0 9', '1 | a 0 f 0 1 3', '1 | a 0 f 0', '1 | w 0 u 9 1', '1 | w 0 f 7 1', '1 | w 0 f 5 1', '1 | A 0 f 0 1', '1 | k 0 f 0 ; C 0 e 0', '1 | k 0 v 0', '1 | k 0 f 0 1', '1 | sa 0 m 7 1', '1 | K 0 ; sa 0 f 0 1', '1 | K 0 1', '1 | K 0 ; sa 0 e 7 1']
+MALFORMED = ['1 | a 0 q 0 1', '1 | a 0 m 0 1', '1 | a 3 f 0 1', '1 | z 0', '1 | a 0 f 0 9', '1 | a 0 f 0 1 3', '1 | a 0 f 0', '1 | w 0 u 9 1', '1 | w 0 f 7 1', '1 | w 0 f 5 1', '1 | A 0 f 0 1', '1 | k 0 f 0 ; C 0 e 0', '1 | k 0 v 0', '1 | k 0 f 0 1', '1 | sa 0 m 7 1', '1 | K 0 ; sa 0 f 0 1', '1 | K 0 1', '1 | K 0 ; sa 0 e 7 1', '1 | a 0 e 10 1', '1 | a 0 m 12 1', '1 | a 0 v 12 1 3', '1 | a 0 f 17 1', '1 | a 0 v 10 1']
 
 
 def gen_history(rng, maxlen=25):
@@ -152,7 +161,7 @@ def gen_history(rng, maxlen=25):
             continue
         o = ''
         if rng.chance(1, 4):
-            o = ' 3' if t in METHODS else f' {rng.below(3)}'
+            o = ' 3' if t in T_METHODS else ('' if t in L_METHODS else f' {rng.below(3)}')
         if r < 75:
             steps.append(f'{pre}a {b} {via} {t} {rng.below(4)}{o}')
         elif r < 90:
@@ -531,7 +540,7 @@ def run(tier):
         'evaluations': sum(len(h.split(' ; ')) for h in hists), 'histories': len(hists), 'distinct_nontrivial': nontrivial,
         'traces_validated_against_impl': len(hists) - len(diffs),
         'rule': 'one evaluation = one history step, after which the whole executable image (see layout.text bytes) is compared with the snapshot and '
-                'all 10 targets + 3 neighbours are called; non-trivial = distinct history in which at least one entry jump was observed in the image',
+                'all 17 targets + 3 neighbours are called; non-trivial = distinct history in which at least one entry jump was observed in the image',
         'distribution': dict(stats(hists, impl), layout=layout, env=envline, gen_modules_changed_this_run=changed),
         'stale_handle_lane': {'lines': len(STALE), 'failing': len(stale_bad), 'note': 'oracle on the implementation only; not part of the model'},
         'samples': [{'hist': hists[i], 'impl': impl[i], 'model': model[i] if model else None} for i in (0, len(hists) // 2, len(hists) - 1)],
